@@ -40,7 +40,7 @@ ASSUMPTIONS = [
     "time.monotonic is virtual inside the shard process; asyncio.wait's 2 s timeout and backup launch decisions run on virtual time",
     "the retry budget is the executor's retries option (default 2, i.e. three attempts as documented) on both ThreadsExecutor and ProcessesExecutor",
 ]
-NSHARDS = {"quick": 16, "thorough": 32}
+NSHARDS = {"quick": 16, "thorough": 16}
 
 
 class ScriptedError(Exception):
@@ -439,9 +439,9 @@ def finalize(tier, merged):
         "rule": RULE,
         "exhaustive": False,
         "floors": [
-            ("scripted scenarios executed on the real scheduler", c.get("scenarios", 0), 15000 if tier == "quick" else 380000),
-            ("backup tasks launched by the scheduler", c.get("backups_launched", 0), 3000 if tier == "quick" else 80000),
-            ("original and backup completing at the same virtual instant", c.get("simultaneous_completions", 0), 500 if tier == "quick" else 15000),
+            ("scripted scenarios executed on the real scheduler", c.get("scenarios", 0), 15000 if tier == "quick" else 190000),
+            ("backup tasks launched by the scheduler", c.get("backups_launched", 0), 3000 if tier == "quick" else 40000),
+            ("original and backup completing at the same virtual instant", c.get("simultaneous_completions", 0), 500 if tier == "quick" else 7500),
             ("retry-wrapper and end-to-end fault cases", c.get("retry_wrapper_cases", 0) + c.get("end_to_end_fault_cases", 0) + c.get("end_to_end_fault_cases_processes", 0), 28, ),
         ],
         "assumptions": ASSUMPTIONS,
